@@ -4,6 +4,7 @@ package c08
 import (
 	"bytes"
 	"encoding/binary"
+	"errors"
 	"fmt"
 	"io"
 	"math"
@@ -20,7 +21,7 @@ import (
 
 func TestMain(m *testing.M) {
 	harness.Property("C08",
-		"streams: random bytes (0..4 KiB); valid streams from the library writer, the canonical reference encoder and the random-parse reference encoder, mutated by truncation at any length, 1..3 bit flips, header edits (size in {-2^31,-1,0,n-61..n+61,2^31-1}, CRC edits; B2 CRC re-computed or left stale), splices of two streams and trailing garbage; read with generated buffer schedules; B2 and plain. Non-trivial = the constructor accepted the stream (so the read loop ran); distinct by hash(stream, b2, reads).",
+		"streams: random bytes (0..4 KiB); valid streams from the library writer, the canonical reference encoder and the random-parse reference encoder, mutated by truncation at any length, 1..3 bit flips, header edits (size in {-2^31,-1,0,n-61..n+61,2^31-1}, CRC edits incl. the sum of the data followed by 2 or 4 zero bytes; B2 CRC re-computed or left stale), splices of two streams and trailing garbage; read with generated buffer schedules; B2 and plain. Non-trivial = the constructor accepted the stream (so the read loop ran); distinct by hash(stream, b2, reads).",
 		"non-termination is detected without a clock: 200 consecutive Read results (0,nil) on a non-empty buffer",
 		"'canonical decoding' = output of the strict reference decoder (internal/ref/lzhuf.Decode), validated on the golden files",
 	)
@@ -125,8 +126,21 @@ func runReader(c Case, sigp, msgp *string, op *outcome) {
 			}
 		}
 		o.n = len(out)
-		cerr := r.Close()
-		if cerr != nil {
+		// Close three times (defer r.Close() next to an explicit Close is the ordinary idiom). A checksum verdict
+		// stands: after ErrChecksum no later Close may report success. (A Close that failed on a transient source
+		// error may succeed later; whichever Close reports success is held to the full oracle below.)
+		cerrs := []error{r.Close(), r.Close(), r.Close()}
+		ok := false
+		for i, e := range cerrs {
+			if e == nil {
+				ok = true
+			}
+			if i > 0 && e == nil && errors.Is(cerrs[i-1], lzhuf.ErrChecksum) {
+				sig, msg = "close-verdict-changes", fmt.Sprintf("Close returned %v, Close number %d on the same Reader returned nil", cerrs[i-1], i+1)
+				return
+			}
+		}
+		if !ok {
 			return
 		}
 		o.closeOK = true
@@ -320,7 +334,14 @@ func genCase(t *rapid.T) Case {
 		c.Origin = "size-edit:" + origin
 	case 7: // CRC edits
 		if c.B2 && len(z) >= 2 {
-			z[rapid.IntRange(0, 1).Draw(t, "crcbyte")] ^= byte(rapid.IntRange(1, 255).Draw(t, "crcxor"))
+			if rapid.IntRange(0, 3).Draw(t, "crc_of_longer") == 0 {
+				// the sum of the data with 2 or 4 zero bytes appended (what a checksum register holds when it is
+				// finalised more than once)
+				ext := append(append([]byte{}, z[2:]...), make([]byte, 2*rapid.IntRange(1, 2).Draw(t, "crc_ext"))...)
+				binary.LittleEndian.PutUint16(z, ref.CRC16(ext))
+			} else {
+				z[rapid.IntRange(0, 1).Draw(t, "crcbyte")] ^= byte(rapid.IntRange(1, 255).Draw(t, "crcxor"))
+			}
 		}
 		c.Origin = "crc-edit:" + origin
 	case 8: // splice of two streams
